@@ -17,6 +17,11 @@ def explained (field : Nat) (op : Nat) (func : String) (t : Tid) (o n : Int) : B
         (List.range 65).any fun can =>
           try1 { pending := o, reserved := [(t, delta + can)] } (.pkLoop (delta + can) 0 can) .none
     else if func == "_dispatch_worker_thread" then try1 { pending := o, booting := [t] } .wStart .none
+    else if func == "__DISPATCH_ROOT_QUEUE_CONTENDED_WAIT__" then
+      -- the back-off bracket: +1 when the contention is judged serious, -1 on the way out
+      if op = 5 then try1 { pending := o } .wRun .none
+      else if op = 6 then try1 { pending := o, reserved := [(t, 1)] } .wContend .none
+      else false
     else false
   else
     if func == "_dispatch_root_queue_poke_slow" then try1 { pool := o } (.pkCas (o - n).toNat 0 o) .none
